@@ -2014,25 +2014,21 @@ class ClosePositionsAfterDates(Algo):
     def __call__(self, target):
         if "closed" not in target.perm:
             target.perm["closed"] = set()
+        # names whose position (if any) has been dealt with
+        done = target.perm.setdefault("closed_positions", set())
         close_dates = target.get_data(self.close_dates)["date"]
-        # Find securities that are candidate for closing. A name that is not
-        # a child (yet) - securities named by a string are only created when
-        # first traded - matures all the same: it has nothing to close, but
-        # it is recorded as closed so that SelectActive keeps it out
-        sec_names = [
-            sec_name
-            for sec_name in close_dates.index
-            if sec_name not in target.perm["closed"] and (sec_name not in target.children or isinstance(target.children[sec_name], SecurityBase))
-        ]
+        is_closed = close_dates <= target.now
 
-        # Check whether closed
-        is_closed = close_dates.loc[sec_names] <= target.now
-
-        # Close position
         for sec_name in is_closed[is_closed].index:
-            if sec_name in target.children:
-                target.close(sec_name, update=False)
+            # past its date a name is inactive (SelectActive keeps it out),
+            # whether it is a child yet or not - a security named by a
+            # string is only created when first traded
             target.perm["closed"].add(sec_name)
+            # and whatever it holds is closed, once it exists
+            sec = target.children.get(sec_name)
+            if isinstance(sec, SecurityBase) and sec_name not in done:
+                target.close(sec_name, update=False)
+                done.add(sec_name)
 
         # Now update
         target.root.update(target.now)
@@ -2068,24 +2064,21 @@ class RollPositionsAfterDates(Algo):
     def __call__(self, target):
         if "rolled" not in target.perm:
             target.perm["rolled"] = set()
+        # names whose position (if any) has been moved
+        done = target.perm.setdefault("rolled_positions", set())
         roll_data = target.get_data(self.roll_data)
         transactions = {}
-        # Find securities that are candidate for roll. A name that is not a
-        # child (yet) - securities named by a string are only created when
-        # first traded - has nothing to roll once its date has come, but it is
-        # recorded as rolled so that SelectActive keeps it out
-        sec_names = [
-            sec_name
-            for sec_name in roll_data.index
-            if sec_name not in target.perm["rolled"] and (sec_name not in target.children or isinstance(target.children[sec_name], SecurityBase))
-        ]
 
         # Calculate new transaction and close old position
-        for sec_name, sec_fields in roll_data.loc[sec_names].iterrows():
+        for sec_name, sec_fields in roll_data.iterrows():
             if sec_fields["date"] <= target.now:
+                # past its date a name is inactive (SelectActive keeps it
+                # out), whether it is a child yet or not
                 target.perm["rolled"].add(sec_name)
-                if sec_name not in target.children:
+                sec = target.children.get(sec_name)
+                if not isinstance(sec, SecurityBase) or sec_name in done:
                     continue
+                done.add(sec_name)
                 new_quantity = sec_fields["factor"] * target[sec_name].position
                 new_sec = sec_fields["target"]
                 if new_sec in transactions:
